@@ -26,6 +26,7 @@
   what the correspondence check observes (a panic is printed as a token and differs).
 -/
 import Flamego.Base.Codec
+import Flamego.Gen.ConstFacts
 namespace Flamego.Access
 
 /-! ## THE rule (the property's one rule for every accessor) -/
@@ -94,6 +95,16 @@ def parseInt (bitSize : Nat) (s : Bytes) : Int × NumErr :=
 /-- `strconv.IntSize` of the platform the harness runs on (checked at run time: the executor's
     `NEW` line prints it and the driver prints this constant). -/
 def intSize : Nat := 64
+
+/-- the `bitSize` argument as `strconv.ParseInt` resolves it: 0 stands for `IntSize` -/
+def resolveBits (b : Nat) : Nat := if b = 0 then intSize else b
+
+/-- the bit sizes the three typed accessors pass to `strconv.ParseInt`, read from context.go on every
+    run (Gen/ConstFacts; documented: QueryInt 0, QueryInt64 64, ParamInt64 64; the base is 10 in all
+    three, which is the only base `parseInt` models — Props/ConstFacts/C18 ties it) -/
+def queryIntBits : Nat := resolveBits Gen.queryIntBitSize
+def queryInt64Bits : Nat := resolveBits Gen.queryInt64BitSize
+def paramInt64Bits : Nat := resolveBits Gen.paramInt64BitSize
 
 /-- `strconv.Atoi`: a fast path for `0 < len < 19` (on 64-bit) that cannot overflow, else
     `ParseInt(s, 10, 0)` and `int(i64)` — which keeps the clamped value on a range error. -/
@@ -228,15 +239,15 @@ def queryBool (q : Query) (name : Bytes) (d : Option Bool) : Bool :=
 def queryInt (q : Query) (name : Bytes) (d : Option Int) : Int :=
   let v := query q name none
   match d with
-  | some dv => if v = [] then dv else (parseInt intSize v).1
-  | none => (parseInt intSize v).1
+  | some dv => if v = [] then dv else (parseInt queryIntBits v).1
+  | none => (parseInt queryIntBits v).1
 
 /-- context.go:325 `QueryInt64` -/
 def queryInt64 (q : Query) (name : Bytes) (d : Option Int) : Int :=
   let v := query q name none
   match d with
-  | some dv => if v = [] then dv else (parseInt 64 v).1
-  | none => (parseInt 64 v).1
+  | some dv => if v = [] then dv else (parseInt queryInt64Bits v).1
+  | none => (parseInt queryInt64Bits v).1
 
 /-- context.go:335 `QueryFloat64`; `pf` = value component of `strconv.ParseFloat(·, 64)` as bits -/
 def queryFloat64 (pf : Bytes → UInt64) (q : Query) (name : Bytes) (d : Option UInt64) : UInt64 :=
@@ -259,7 +270,7 @@ def param (ps : Params) (name : Bytes) : Bytes := (pLookup ps name).getD []
 def paramInt (ps : Params) (name : Bytes) : Int := (atoi (param ps name)).1
 
 /-- context.go:271 `ParamInt64` = `v, _ := strconv.ParseInt(c.Param(name), 10, 64)` -/
-def paramInt64 (ps : Params) (name : Bytes) : Int := (parseInt 64 (param ps name)).1
+def paramInt64 (ps : Params) (name : Bytes) : Int := (parseInt paramInt64Bits (param ps name)).1
 
 /-! ## cookies -/
 
